@@ -1,6 +1,7 @@
 import ScenicModel.Lemmas.SimTop
 import ScenicModel.Gen.RunOrder
 import ScenicModel.Props.C12Co
+import ScenicModel.Props.C12Sub
 /-! # C12 — simulation steps run in the documented order and stop at the documented step
 
 Property theorems about the executable model `Scenic.SimLoop.simulate`
@@ -46,6 +47,33 @@ theorem gen_step_order :
 theorem gen_time_ops :
     Scenic.Gen.opScenarioTimeLimit = "GtE" ∧ Scenic.Gen.opMaxSteps = "GtE" ∧ Scenic.Gen.opDoFor = "GtE"
     ∧ Scenic.Gen.secondsDivide = true := by decide
+
+/-- the two repaired sub-scenario defects stay repaired: `_addDynamicRequirement` files only `require`
+    statements under the temporal requirements (the model evaluates a sub-scenario's `terminate when`,
+    `terminate simulation when` and `record` like those of the top-level scenario), and the sub-scenario
+    loop of `_runMonitors` hands up `terminate simulation` only (`monSubs`) -/
+theorem gen_subscenario_flags :
+    Scenic.Gen.dynReqAsTemporal = false ∧ Scenic.Gen.monTermPropagates = false := by decide
+
+/-- the walks over the scenario tree have the shape the model has: `_runMonitors` (own monitors,
+    sub-scenarios, then the scenario's own stop), `_invokeInner` (start all, then per step: step every
+    sub-scenario, keep those that continue, return when none is left, yield, drop those stopped
+    meanwhile), `_stop` (monitors, sub-scenarios, compose iterator), `_checkSimulationTerminationConditions`
+    (own conditions, then the running sub-scenarios), `_evaluateRecordedExprsAt` (own expressions, then
+    every listed sub-scenario), and an ended behavior yields the empty action -/
+theorem gen_tree_walks :
+    Scenic.Gen.monitorsOrder = ["own", "subs", "stopSelf"]
+    ∧ Scenic.Gen.invokeOrder = ["start", "assign", "fresh", "stepAll", "keep", "returnIfNone", "yield", "dropStopped"]
+    ∧ Scenic.Gen.stopOrder = ["monitors", "clearMonitors", "subs", "iterator", "endScenario"]
+    ∧ Scenic.Gen.termSimRecurses = true ∧ Scenic.Gen.termSimRunningOnly = true
+    ∧ Scenic.Gen.recordAllSubs = true ∧ Scenic.Gen.behaviorEndIsEmpty = true := by decide
+
+/-- `Simulation.__init__` (setup, start of the top-level scenario, first update, `_run`, stop of the
+    remaining scenarios, final records) and `recordCurrentState` (initial records at step 0, time
+    series, trajectory) are in the order of `initSt` / `simulate` / `finish` / `recordState` -/
+theorem gen_init_record_order :
+    Scenic.Gen.initOrder = ["begin", "setup", "start", "update", "run", "stopRemaining", "recordFinal", "result"]
+    ∧ Scenic.Gen.recordOrder = ["initial", "series", "trajectory"] := by decide
 
 /-! ## step order -/
 
@@ -135,13 +163,15 @@ theorem step_limit_exact (P : Prog) (S : Sem) (cf fuel : Nat) (sched : Nat → N
     omega
 
 /-- **`terminate simulation when`.**  The run never executes a step at a clock value at which one
-    of the conditions holds; it ends with `simulationTerminationCondition` only at a clock value at
-    which one holds; and when it ends at step 4/5 for another reason, none holds. -/
+    of the top-level scenario's conditions holds; it ends with `simulationTerminationCondition` only
+    at a clock value at which a condition of some scenario class holds (a sub-scenario's conditions
+    count while it runs; `terminate_simulation_when_last` says that the first true evaluation ends
+    the run); and when it ends at step 4/5 for another reason, none of the top-level ones holds. -/
 theorem terminate_simulation_when_exact (P : Prog) (S : Sem) (cf fuel : Nat) (sched : Nat → Nat → List Nat)
     (hS : S.order = Phase.documented) (tt : Term) (ht : (simulate P S cf fuel sched).term = some tt) :
     (∀ t' < (simulate P S cf fuel sched).time, ∀ c ∈ P.termSimWhen, P.code.cond c t' = false) ∧
     (tt = .simulationTerminationCondition →
-      ∃ c ∈ P.termSimWhen, P.code.cond c (simulate P S cf fuel sched).time = true) ∧
+      ∃ k, ∃ c ∈ (P.scens.getD k default).termSimWhen, P.code.cond c (simulate P S cf fuel sched).time = true) ∧
     (tt = .timeLimit ∨ tt = .terminatedByBehavior →
       ∀ c ∈ P.termSimWhen, P.code.cond c (simulate P S cf fuel sched).time = false) := by
   obtain ⟨s, _, h2⟩ := simulate_order P S cf fuel sched hS
@@ -174,17 +204,21 @@ theorem terminate_when_top (P : Prog) (S : Sem) (cf fuel : Nat) (sched : Nat →
       P.code.cond c t' = false :=
   fun t' ht' => (simulate_top P S cf fuel sched hS tt ht t' ht').2
 
-/-- a two-agent program with a monitor, a sub-scenario and a `do … for` -/
+/-- a two-agent program with a monitor, a sub-scenario (with its own records and
+    `terminate simulation when`) and a `do … for` -/
 def demo : Prog where
-  code := ⟨[.ge 2], [[.log 0, .take 1, .doSub [1] (.forT 2), .term], [.forever [.take 7]]]⟩
+  code := ⟨[.ge 2, .ge 9], [[.log 0, .take 1, .doSub [1] (.forT 2), .term], [.forever [.take 7]]]⟩
   monCls := [[.wait, .log 5, .doSub [] (.untilC 0), .termSim]]
-  scens := [⟨[0, 1], [0], some [.wait, .doSub [1] (.forT 2), .log 9, .forever [.wait]], none, [], true⟩,
-            ⟨[1], [], none, some 5, [], false⟩]
-  termSimWhen := [0]
-  recInit := true
-  recs := 1
-  recFinal := true
+  scens := [{ agents := [0, 1], mons := [0], compose := some [.wait, .doSub [1] (.forT 2), .log 9, .forever [.wait]],
+              limit := none, termWhen := [], reqAlways := true, termSimWhen := [0], recInit := true, recs := [0],
+              recFinal := true },
+            { agents := [1], mons := [], compose := none, limit := some 5, termWhen := [], reqAlways := false,
+              termSimWhen := [1], recs := [7] }]
   maxSteps := 6
+
+def demoNoMon : Prog := { demo with monCls := [[.forever [.wait]]] }
+def demoNoTS : Prog :=
+  { demoNoMon with scens := demoNoMon.scens.map fun c => { c with termSimWhen := [] } }
 
 -- non-vacuity: the demo terminates (by the monitor's `wait until`, at clock 2, before the
 -- `terminate simulation when` of the same clock is looked at), so the hypotheses of the theorems
@@ -193,76 +227,65 @@ example : (simulate demo Sem.documented 100 100 (fun _ n => (List.range n).rever
     = some .terminatedByMonitor := by decide +kernel
 example : (simulate demo Sem.documented 100 100 (fun _ n => (List.range n).reverse)).time = 2 := by
   decide +kernel
-example : (simulate { demo with monCls := [[.forever [.wait]]] } Sem.documented 100 100 (fun _ n => List.range n)).term
+example : (simulate demoNoMon Sem.documented 100 100 (fun _ n => List.range n)).term
     = some .simulationTerminationCondition := by decide +kernel
-example : (simulate { demo with monCls := [[.forever [.wait]]], termSimWhen := [] } Sem.documented 100 100
-    (fun _ n => List.range n)).term = some .terminatedByBehavior := by decide +kernel
-example : (simulate { demo with monCls := [[.forever [.wait]]], termSimWhen := [], maxSteps := 3 } Sem.documented 100 100
-    (fun _ n => List.range n)).term = some .timeLimit := by decide +kernel
+example : (simulate demoNoTS Sem.documented 100 100 (fun _ n => List.range n)).term = some .terminatedByBehavior := by
+  decide +kernel
+example : (simulate { demoNoTS with maxSteps := 3 } Sem.documented 100 100 (fun _ n => List.range n)).term
+    = some .timeLimit := by decide +kernel
+-- a sub-scenario's `terminate simulation when` ends the run while the sub-scenario is running (clock 1: the
+-- sub-scenario is started at clock 1 by the compose block, its condition `clock ≥ 1` holds)
+example : (simulate { demoNoTS with scens := demoNoTS.scens.modify 1 fun c => { c with termSimWhen := [0] },
+                                    code := ⟨[.ge 1], demoNoTS.code.behs⟩ }
+    Sem.documented 100 100 (fun _ n => List.range n)).time = 1 := by decide +kernel
 -- a top-level `terminate after 2 steps` / `terminate when clock >= 2`
-def demoTop (limit : Option Nat) (tw : List Nat) : Prog :=
-  { demo with monCls := [[.forever [.wait]]], termSimWhen := [], scens := [⟨[0, 1], [], none, limit, tw, true⟩] }
+def demoTop (lim : Option Nat) (tw : List Nat) : Prog :=
+  let top : ScenCls := { agents := [0, 1], mons := [], compose := none, limit := lim, termWhen := tw, reqAlways := true }
+  { demoNoTS with scens := [top] }
 example : (simulate (demoTop (some 2) []) Sem.documented 100 100 (fun _ n => List.range n)).time = 2 := by
   decide +kernel
 example : (simulate (demoTop none [0]) Sem.documented 100 100 (fun _ n => List.range n)).term
     = some .scenarioComplete := by
   decide +kernel
 
-/-! ## the two places where the unchanged code leaves the documented semantics (negation witnesses)
+/-! ## the repaired sub-scenario constructs, on the two programs that exposed the defects
 
-The model has both behaviours, selected by the two flags of `Sem` that are regenerated from the
-source.  Under the documented semantics (`Sem.documented`) the constructs behave as the reference
-says; with a flag set (the code as it is now) they do not.  The same two programs are replayed on the
-real code by the check (`construct:subscenario-terminate-when`, `construct:subscenario-monitor-terminate`). -/
+Before the repairs of `/repo` (`fix:` commits b67cb6dd and f31f9b87) the model carried two flags
+reproducing the defects and these programs had negation witnesses.  The model now has the repaired
+behaviour only; the general statements are `stepScen_cont` / `stepScen_limit` (every scenario
+instance) and `monSubs_only_endSim` / `runMonitors_endScen_own` (`Props/C12Sub.lean`); these are their
+instances on the two programs, which the check also replays on the real code
+(`construct:subscenario-terminate-when`, `construct:subscenario-monitor-terminate`). -/
 
 /-- `Main: compose: do Sub(); log 7; wait; wait` and `Sub: terminate when clock >= 1` -/
 def subTerminateWhen : Prog where
   code := ⟨[.ge 1], []⟩
   monCls := []
-  scens := [⟨[], [], some [.doSub [1] .none, .log 7, .wait, .wait], none, [], false⟩,
-            ⟨[], [], none, none, [0], false⟩]
-  termSimWhen := []
-  recInit := false
-  recs := 0
-  recFinal := false
+  scens := [{ agents := [], mons := [], compose := some [.doSub [1] .none, .log 7, .wait, .wait], limit := none,
+              termWhen := [], reqAlways := false },
+            { agents := [], mons := [], compose := none, limit := none, termWhen := [0], reqAlways := false }]
   maxSteps := 6
 
-/-- documented: the sub-scenario ends at clock 1, the parent goes on (marker, two waits) and completes at clock 3 -/
-theorem subscenario_terminate_when_documented :
-    (simulate subTerminateWhen Sem.documented 50 50 (fun _ n => List.range n)).term = some .scenarioComplete ∧
-    (simulate subTerminateWhen Sem.documented 50 50 (fun _ n => List.range n)).time = 3 ∧
-    Ev.c 0 7 ∈ (simulate subTerminateWhen Sem.documented 50 50 (fun _ n => List.range n)).log := by
-  decide +kernel
-
-/-- the code as it is (`dynReqAsTemporal`): the same program is rejected in the sub-scenario's first step -/
-theorem subscenario_terminate_when_witness :
-    (simulate subTerminateWhen ⟨Phase.documented, true, false⟩ 50 50 (fun _ n => List.range n)).abort = some .rejected ∧
-    (simulate subTerminateWhen ⟨Phase.documented, true, false⟩ 50 50 (fun _ n => List.range n)).time = 0 := by
+/-- the sub-scenario ends at clock 1, the parent goes on (marker, two waits) and completes at clock 3 -/
+theorem subscenario_terminate_when :
+    (simulate subTerminateWhen Scenic.Gen.sem 50 50 (fun _ n => List.range n)).term = some .scenarioComplete ∧
+    (simulate subTerminateWhen Scenic.Gen.sem 50 50 (fun _ n => List.range n)).time = 3 ∧
+    Ev.c 0 7 ∈ (simulate subTerminateWhen Scenic.Gen.sem 50 50 (fun _ n => List.range n)).log := by
   decide +kernel
 
 /-- `Main: compose: do Sub(); log 7; wait; wait` and `Sub: require monitor M()`, `M: wait; terminate` -/
 def subMonitorTerminate : Prog where
   code := ⟨[], []⟩
   monCls := [[.wait, .term]]
-  scens := [⟨[], [], some [.doSub [1] .none, .log 7, .wait, .wait], none, [], false⟩,
-            ⟨[], [0], none, none, [], false⟩]
-  termSimWhen := []
-  recInit := false
-  recs := 0
-  recFinal := false
+  scens := [{ agents := [], mons := [], compose := some [.doSub [1] .none, .log 7, .wait, .wait], limit := none,
+              termWhen := [], reqAlways := false },
+            { agents := [], mons := [0], compose := none, limit := none, termWhen := [], reqAlways := false }]
   maxSteps := 6
 
-/-- documented: the monitor stops the sub-scenario at clock 1, the parent continues at clock 2 and completes at clock 4 -/
-theorem subscenario_monitor_terminate_documented :
-    (simulate subMonitorTerminate Sem.documented 50 50 (fun _ n => List.range n)).term = some .scenarioComplete ∧
-    (simulate subMonitorTerminate Sem.documented 50 50 (fun _ n => List.range n)).time = 4 := by
-  decide +kernel
-
-/-- the code as it is (`monTermPropagates`): the whole simulation ends at clock 1 with `terminatedByMonitor` -/
-theorem subscenario_monitor_terminate_witness :
-    (simulate subMonitorTerminate ⟨Phase.documented, false, true⟩ 50 50 (fun _ n => List.range n)).term
-      = some .terminatedByMonitor ∧
-    (simulate subMonitorTerminate ⟨Phase.documented, false, true⟩ 50 50 (fun _ n => List.range n)).time = 1 := by
+/-- the monitor stops the sub-scenario at clock 1, the parent continues at clock 2 and completes at clock 4 -/
+theorem subscenario_monitor_terminate :
+    (simulate subMonitorTerminate Scenic.Gen.sem 50 50 (fun _ n => List.range n)).term = some .scenarioComplete ∧
+    (simulate subMonitorTerminate Scenic.Gen.sem 50 50 (fun _ n => List.range n)).time = 4 := by
   decide +kernel
 
 end Scenic.C12
